@@ -82,7 +82,8 @@ def units():
         W = n // 64
         mk = lambda t, c, canary, **kw: BVUnit(B(n) + "::" + t, {B(n) + "::" + t: c}, P + kw.pop("props", []), unwind=kw.pop("unwind", W + 2), tier=tier, canary=canary, **kw)
         us.append(mk("add", c_add(n), ("OLD%d(a) + OLD%d(b)" % (n, n), "OLD%d(a) + OLD%d(b) + 1" % (n, n)), props=["C18"]))
-        us.append(mk("subtract", c_sub(n), ("== OLD%d(a)" % n, "== 1 + OLD%d(a)" % n), props=["C18"]))
+        us.append(mk("subtract", c_sub(n), ("== OLD%d(a)" % n, "== 1 + OLD%d(a)" % n), props=["C18"], strip_restrict=True,
+                     note="proved also for out = b (beyond the __restrict interface) because FpBase::negate(out = a) calls it that way"))
         if n in (384, 256):
             us.append(mk("compare", c_compare(n), ("== -1) ==", "== 1) =="), unwind=W + 2))
             us.append(mk("equal", c_equal(n), ("== (VAL", "!= (VAL"), unwind=n // 8 + 2))
